@@ -38,7 +38,9 @@ const c19Doc = `{
      {"name": "tags", "in": "query", "schema": {"type": "array", "items": {"type": "string", "maxLength": 8}}},
      {"name": "X-Tag", "in": "header", "schema": {"type": "string", "pattern": "^(?=a)[a-z]+$"}},
      {"name": "sid", "in": "cookie", "schema": {"type": "string"}},
-     {"name": "step", "in": "query", "schema": {"type": "number", "multipleOf": 0.25}}
+     {"name": "step", "in": "query", "schema": {"type": "number", "multipleOf": 0.25}},
+     {"name": "code", "in": "query", "schema": {"type": "string", "pattern": "^(?!ab)[a-z]+$"}},
+     {"name": "word", "in": "query", "schema": {"type": "string", "pattern": "^(?=.*c)[a-z]+$"}}
     ],
     "responses": {"200": {"description": "ok", "content": {"application/json": {"schema": {"$ref": "#/components/schemas/Echo"}}}}}
    }
@@ -111,6 +113,10 @@ func c19Items(rng *lp.Rand, n int) []map[string]any {
 		}
 		return string(b)
 	}
+	// one small pool of values for every member validated by a look-around pattern: the patterns disagree on
+	// them (`^(?=a)[a-z]+$`, `^(?!x)\w+$`, `^(?!ab)[a-z]+$`, `^(?=.*c)[a-z]+$`), so a verdict that leaks from one
+	// pattern (or one request) to another changes an outcome
+	pool := []string{"abc", "xab", "bcd", "axe", "acx", "xc", "ab", "ca", "b"}
 	for i := 0; i < n; i++ {
 		switch rng.Intn(9) {
 		case 0, 1: // getItem, mostly valid
@@ -132,6 +138,10 @@ func c19Items(rng *lp.Rand, n int) []map[string]any {
 			if rng.Chance(50) {
 				h["Cookie"] = []string{"sid=" + word("abcdef0123456789", 4, 20)}
 			}
+			if rng.Chance(50) {
+				h["X-Tag"] = []string{lp.Pick(rng, pool)}
+				q += "&code=" + lp.Pick(rng, pool) + "&word=" + lp.Pick(rng, pool)
+			}
 			raw("GET", "/items/"+id, q, "", nil, h)
 		case 2, 3: // postItem
 			item := map[string]any{"name": word("abc XYZ", 1, 30)}
@@ -150,6 +160,9 @@ func c19Items(rng *lp.Rand, n int) []map[string]any {
 					}
 				}
 				item["tags"] = tags
+				if rng.Chance(40) {
+					item["tags"] = []any{lp.Pick(rng, pool)}
+				}
 			}
 			if rng.Chance(30) {
 				item["note"] = nil
@@ -171,7 +184,7 @@ func c19Items(rng *lp.Rand, n int) []map[string]any {
 			if rng.Bool() {
 				raw("POST", "/items", "", "application/json", &body, nil)
 			} else {
-				items = append(items, map[string]any{"kind": "call", "op": "PostItem", "req_json": string(b)})
+				items = append(items, map[string]any{"kind": "call", "op": "PostItem", "req_json": string(b), "override": rng.Bool()})
 			}
 		case 4: // pet (sum)
 			var pet map[string]any
@@ -215,7 +228,10 @@ func c19Items(rng *lp.Rand, n int) []map[string]any {
 			if rng.Chance(40) {
 				params["Tags"] = []any{word("abc", 1, 8), word("abc", 1, 8)}
 			}
-			items = append(items, map[string]any{"kind": "call", "op": "GetItem", "params": params})
+			if rng.Chance(50) {
+				params["XTag"], params["Code"], params["Word"] = lp.Pick(rng, pool), lp.Pick(rng, pool), lp.Pick(rng, pool)
+			}
+			items = append(items, map[string]any{"kind": "call", "op": "GetItem", "params": params, "override": rng.Bool()})
 		case 8: // routing and method failures
 			switch rng.Intn(3) {
 			case 0:
